@@ -1305,8 +1305,9 @@ std::vector<uint8_t> MDSDRV_Converter::convert_track(const std::vector<MDSDRV_Ev
 		}
 
 		// A rest, tie or note of length 0 emits nothing and must not be taken for the
-		// last emitted event by the length disambiguation above.
-		if(type < MDSDRV_Event::REST || type >= MDSDRV_Event::SLR || it->arg)
+		// last emitted event by the length disambiguation above. The same goes for a CARRY
+		// event (the 'carry' platform command), which only a macro track encodes.
+		if((type < MDSDRV_Event::REST && type != MDSDRV_Event::CARRY) || type >= MDSDRV_Event::SLR || it->arg)
 			last_type = type;
 	}
 	return track_data;
